@@ -198,7 +198,10 @@ let () =
             let n = nat_of_int (int_of_string (let v = get "n" in if v = "-" then "1" else v)) in
             let x = (match get "kind" with
                 | "colvarx" -> fst (colvarx_validate (qof "temp" "300") e)
-                | "walls" -> fst (walls_validate n e)
+                | "walls" ->
+                  let ws = (match get "w" with "-" -> [] | v -> List.map (fun t -> match parse_real (tok_of_text t) with QVal q -> q | _ -> { qnum = z_of_int 1; qden = XH })
+                                                                   (List.filter (fun x -> x <> "") (String.split_on_char ',' v))) in
+                  fst (walls_validate ws n e)
                 | "opesx" -> fst (opesx_validate (qof "kbt" "1") (get "bfinf" = "1") (get "explore" = "1") e)
                 | "metax" -> fst (metax_validate n e)
                 | "abfshared" -> fst (abfshared_validate rof e)
